@@ -1693,7 +1693,7 @@ class Interp:
             if o.cls is not None:
                 m = self.p.find_method(o.cls, attr)
                 if m is not None:
-                    if any(isinstance(d, ast.Name) and d.id == "property" for d in m.node.decorator_list):
+                    if any((isinstance(d, ast.Name) and d.id in ("property", "cached_property")) or (isinstance(d, ast.Attribute) and d.attr == "cached_property") for d in m.node.decorator_list):
                         return self.call_fi(m, [o], {})
                     if any(isinstance(d, ast.Name) and d.id == "staticmethod" for d in m.node.decorator_list):
                         return Func(m.node, m.module, None, None, m, m.cls)
@@ -1739,7 +1739,7 @@ class Interp:
                 return o.name
             m = self.p.find_method(o.cls, attr)
             if m is not None:
-                if any(isinstance(d, ast.Name) and d.id == "property" for d in m.node.decorator_list):
+                if any((isinstance(d, ast.Name) and d.id in ("property", "cached_property")) or (isinstance(d, ast.Attribute) and d.attr == "cached_property") for d in m.node.decorator_list):
                     return self.call_fi(m, [o], {})
                 return Func(m.node, m.module, None, o, m, m.cls)
             raise PyRaise(ExcVal("AttributeError", (attr,)))
